@@ -54,7 +54,13 @@ func TestDebug(t *testing.T) {
 	prop := os.Getenv("VERIF_PROP")
 	cfg := DrawConfig(seed, profileFor(prop))
 	adjustConfigFor(&cfg, prop, seed)
-	o := runOnce(t, cfg, prop, knownSet(), nil, func(w *World) { configureFor(w, prop); w.Log.Keep = true })
+	o := runOnce(t, cfg, prop, knownSet(), nil, func(w *World) {
+		configureFor(w, prop)
+		w.Log.Keep = true
+		if os.Getenv("VERIF_DUMPVOTES") != "" {
+			w.AtEnd = dumpVotes
+		}
+	})
 	w := o.w
 	fmt.Printf("cfg=%s\n", cfg.JSON())
 	tail := envInt("VERIF_TAIL", 80)
@@ -67,5 +73,27 @@ func TestDebug(t *testing.T) {
 	}
 	for _, v := range w.Violations {
 		fmt.Printf("VIOLATION %+v\n", v)
+	}
+}
+
+func dumpVotes(w *World) {
+	for _, v := range w.views() {
+		rs := v.rs
+		if rs.Votes == nil {
+			continue
+		}
+		for r := int64(0); r <= 1; r++ {
+			pv := rs.Votes.Prevotes(r)
+			if pv == nil {
+				continue
+			}
+			s := ""
+			for i := 0; i < pv.Size(); i++ {
+				if vt := pv.GetByIndex(i); vt != nil {
+					s += fmt.Sprintf(" %d:%X", i, fp(vt.BlockID.Hash))
+				}
+			}
+			fmt.Printf("n%d pv%d:%s\n", v.nd.id, r, s)
+		}
 	}
 }
